@@ -34,6 +34,11 @@ type c12Scenario struct {
 	Threads   int    `json:"threads"`
 	Late      bool   `json:"late_third_request"` // the last request starts only after the first has been answered
 	Behaviour string `json:"provider_behaviour"` // rotate | refresh-fails | no-refresh-token
+	// part "remote" (c12_remote_test.go): a provider type that re-validates by CALLING the provider
+	Provider string `json:"provider_type,omitempty"`     // keycloak (no refresh) | google (refresh grant)
+	Store    string `json:"store,omitempty"`             // redis | cookie
+	Validate string `json:"validate_endpoint,omitempty"` // 200 | 401 | 500 | reset | 200-then-401 | 401-then-200
+	Refresh  string `json:"refresh_grant,omitempty"`     // ok | fail (google)
 }
 
 type c12Env struct {
@@ -48,7 +53,7 @@ func c12NewEnv(extra ...string) *c12Env {
 	e.up = world.NewUpstream("u")
 	e.redis = world.NewRedis()
 	e.px = mustProxy(&ProxyCfg{Flags: append(append(baseFlags(e.up.URL()), "--email-domain=*", "--cookie-secure=false",
-		"--cookie-refresh=1m", "--cookie-expire=1h", "--pass-access-token=true"), extra...), Redis: e.redis})
+		"--cookie-refresh=1m", "--cookie-expire=1h", "--pass-access-token=true"), extra...), Redis: e.redis, Mutate: c12Patient})
 	return e
 }
 
@@ -62,6 +67,8 @@ type c12Result struct {
 	pruned       bool
 	contended    bool
 	elapsed      time.Duration
+	tags         []string // counters the execution contributes to (complete, owned executions only)
+	sizeBias     int      // added to the counterexample size (orders the witnesses of one key: the plainest first)
 }
 
 // c12Prepare makes the world of one execution: fresh provider, empty store, one login, then
@@ -96,6 +103,7 @@ func c12Prepare(e *c12Env, sc c12Scenario, seed int64) (idp *world.IdP, cookie, 
 			return &world.TokenSpec{Signer: "other", Claims: map[string]any{"sub": "mallory-sub", "email": "mallory@evil.example", "preferred_username": "mallory"}}
 		}
 	}
+	c12ApplyShape(idp, sc.Behaviour) // "rotate-<shape>": the form of the answers to refresh grants
 	e.redis.M.FlushAll()
 	e.redis.M.SetTime(world.Now())
 	e.redis.Intercept = nil
@@ -191,6 +199,9 @@ func fnvString(s string) uint32 {
 }
 
 func c12Exec(e *c12Env, sc c12Scenario, x *explore.Exec, prune bool, seed int64) *c12Result {
+	if sc.Provider != "" {
+		return c12rExec(sc, x, prune, seed) // part "remote" has its own worlds and oracle
+	}
 	res := &c12Result{}
 	idp, cookie, oldAT, err := c12Prepare(e, sc, seed)
 	if err != nil {
@@ -285,7 +296,7 @@ func c12Exec(e *c12Env, sc c12Scenario, x *explore.Exec, prune bool, seed int64)
 	}
 	var parts []string
 	wantGrants := 1
-	if sc.Behaviour != "rotate" {
+	if !c12Rotates(sc.Behaviour) {
 		wantGrants = 0
 	}
 	if sc.Behaviour == "refresh-bad-id-token" || sc.Behaviour == "refresh-nonce-mismatch" {
@@ -314,12 +325,18 @@ func c12Exec(e *c12Env, sc c12Scenario, x *explore.Exec, prune bool, seed int64)
 			// prescribed outcome (a peer may still be served after re-validating the old session)
 			continue
 		}
+		if (r.Status != 200 || !hit) && c12Rotates(sc.Behaviour) && idp.Grants > 0 {
+			// own key: the provider HAS refreshed the session (and, rotating, consumed the old refresh
+			// token), whatever form its answer had — and the request is turned away all the same
+			add("refresh-granted-but-request-not-served", fmt.Sprintf("request %d of %d sharing a stale session was answered %d (upstream hit %v) although the identity provider granted the refresh (%d grant(s))", i, sc.Threads, r.Status, hit, idp.Grants))
+			continue
+		}
 		if r.Status != 200 || !hit {
 			add("request-not-served", fmt.Sprintf("request %d of %d sharing a refreshable stale session was answered %d (upstream hit %v)", i, sc.Threads, r.Status, hit))
 			continue
 		}
-		switch sc.Behaviour {
-		case "rotate":
+		switch {
+		case c12Rotates(sc.Behaviour):
 			if tok == oldAT {
 				add("served-with-stale-token", fmt.Sprintf("request %d reached the upstream with the pre-refresh access token although the session was older than the refresh period", i))
 			} else if len(newToks) > 0 && !containsStr(newToks, tok) {
@@ -332,7 +349,7 @@ func c12Exec(e *c12Env, sc c12Scenario, x *explore.Exec, prune bool, seed int64)
 		}
 	}
 	// the stored session must be the refreshed one: a follow-up request needs no further refresh
-	if sc.Behaviour == "rotate" && len(res.violations) == 0 {
+	if c12Rotates(sc.Behaviour) && len(res.violations) == 0 {
 		g := idp.Grants
 		r := world.Serve(e.px.H, &world.Req{Method: "GET", Target: "/app", Host: "app.example.com", Headers: [][2]string{{"Cookie", cookie}, {"X-Req", "after"}}})
 		var tok string
@@ -395,6 +412,9 @@ func c12Explore(c *Ctx, e *c12Env, sc c12Scenario, bound int, prune bool) {
 			if res.outcome == "proviso-not-met" {
 				c.Inc("proviso_not_met")
 			}
+			for _, t := range res.tags {
+				c.Inc(t)
+			}
 		}
 		if first == nil {
 			first = x.Choices()
@@ -409,7 +429,7 @@ func c12Explore(c *Ctx, e *c12Env, sc c12Scenario, bound int, prune bool) {
 			}
 			choices := x.Choices()
 			c.confirm(kv[0], fmt.Sprintf("%+v: %s [thread order %s]", sc, kv[1], sched.DescribeOrder(res.out.Order)),
-				len(choices)*10+res.out.Switches,
+				len(choices)*10+res.out.Switches+res.sizeBias,
 				c12Replay{Scenario: sc, Choices: choices, Order: sched.DescribeOrder(res.out.Order), What: kv[1]},
 				func() (string, bool) {
 					r := c12Exec(e, sc, explore.Replay(choices, nil), false, c.Seed)
@@ -445,44 +465,89 @@ type c12SeqCase struct {
 	Behaviour string `json:"provider_behaviour"` // rotate | refresh-fails | no-refresh-token
 	IDToken   string `json:"stored_id_token"`    // valid | expired | other-key
 	Age       string `json:"age"`                // fresh | stale
-	Expected  string `json:"expected"`
-	Observed  string `json:"observed"`
+	// cookie configuration ("" = the part's standard one: refresh 1 m, lifetime 1 h)
+	CookieRefresh string `json:"cookie_refresh,omitempty"`
+	CookieExpire  string `json:"cookie_expire,omitempty"` // "default" = flag not given, "0" = session cookie
+	Expected      string `json:"expected"`
+	Observed      string `json:"observed"`
 }
 
 func c12Seq(c *Ctx, up *world.Upstream) {
 	n := 0
 	for _, store := range []string{"cookie", "redis"} {
-		for _, beh := range []string{"rotate", "rotate-no-id-token", "refresh-fails", "no-refresh-token"} {
+		behs := []string{"rotate", "refresh-fails", "no-refresh-token"}
+		for _, shape := range c12RefreshShapes {
+			behs = append(behs, "rotate-"+shape)
+		}
+		for _, beh := range behs {
 			for _, idt := range []string{"valid", "expired", "other-key"} {
 				for _, age := range []string{"fresh", "stale", "stale-by-1s"} {
 					n++
 					if !c.Mine(n) {
 						continue
 					}
-					c12SeqOne(c, up, c12SeqCase{Store: store, Behaviour: beh, IDToken: idt, Age: age})
+					c12SeqOne(c, up, c12SeqCase{Store: store, Behaviour: beh, IDToken: idt, Age: age}, nil)
+				}
+			}
+		}
+		// cookie configurations: every refresh period x lifetime pair that validation accepts
+		c.Info["seq_cookie_configurations_tried"] = len(c12CookieCfgs())
+		for _, k := range c12CookieCfgs() {
+			k := k
+			for _, beh := range []string{"rotate", "refresh-fails"} {
+				for _, idt := range []string{"valid", "expired"} {
+					for _, age := range []string{"fresh", "stale", "stale-by-1s"} {
+						n++
+						if !c.Mine(n) {
+							continue
+						}
+						exp := k.Expire
+						if exp == "" {
+							exp = "default"
+						}
+						c12SeqOne(c, up, c12SeqCase{Store: store, Behaviour: beh, IDToken: idt, Age: age, CookieRefresh: k.Refresh.String(), CookieExpire: exp}, &k)
+					}
 				}
 			}
 		}
 	}
 }
 
-func c12SeqOne(c *Ctx, up *world.Upstream, cs c12SeqCase) {
+func c12SeqOne(c *Ctx, up *world.Upstream, cs c12SeqCase, cookie *c12CookieCfg) {
 	world.ResetClock()
 	world.SeedRandom(c.Seed, 0)
 	idp := world.NewIdP()
 	if cs.Behaviour == "no-refresh-token" {
 		idp.NoRefreshToken = true
 	}
-	if cs.Behaviour == "rotate-no-id-token" {
-		// refresh answers carry new access and refresh tokens but no ID token (legal: OIDC Core 12.2)
-		idp.NoIDTokenOnRefresh = true
+	// "rotate-<shape>": refresh answers without expires_in / with expires_in 0 or a century / without
+	// ID token (legal: OIDC Core 12.2) / without a new refresh token
+	c12ApplyShape(idp, cs.Behaviour)
+	ages := map[string]time.Duration{"fresh": 59 * time.Second, "stale": 2 * time.Minute, "stale-by-1s": 62 * time.Second}
+	cookieFlags := []string{"--cookie-refresh=1m", "--cookie-expire=1h"}
+	if cookie != nil {
+		ages, cookieFlags = c12Ages(cookie.Refresh), cookie.flags()
+		// the access token's own lifetime (the session's expiry) is not the subject: beyond every age probed
+		idp.AccessTTL = 1000 * time.Hour
 	}
-	cfg := &ProxyCfg{Flags: append(baseFlags(up.URL()), "--email-domain=*", "--cookie-secure=false", "--cookie-refresh=1m", "--cookie-expire=1h", "--pass-access-token=true")}
+	cfg := &ProxyCfg{Flags: append(append(baseFlags(up.URL()), "--email-domain=*", "--cookie-secure=false", "--pass-access-token=true"), cookieFlags...), Mutate: c12Patient}
 	if cs.Store == "redis" {
 		cfg.Redis = world.NewRedis()
 		defer cfg.Redis.Close()
 	}
-	px := mustProxy(cfg)
+	px, berr := buildProxy(cfg)
+	if berr != nil {
+		if cookie != nil && strings.HasPrefix(berr.Error(), "validate:") {
+			// a refresh period that is not shorter than the cookie's lifetime: refused at start-up
+			c.Inc("seq_cookie_configurations_refused_by_validation")
+			return
+		}
+		c.Error("C12 seq: %+v: %v", cs, berr)
+		return
+	}
+	if cookie != nil {
+		c.Inc("seq_cookie_configuration_cases")
+	}
 	b := newBrowser(px, "http", "app.example.com")
 	up.Take()
 	resp, _, err := b.Login(idp, "alice", "/app")
@@ -516,14 +581,7 @@ func c12SeqOne(c *Ctx, up *world.Upstream, cs c12SeqCase) {
 	if cs.Behaviour == "refresh-fails" {
 		idp.RefreshFails = true
 	}
-	switch cs.Age {
-	case "fresh":
-		world.Advance(59 * time.Second)
-	case "stale":
-		world.Advance(2 * time.Minute)
-	case "stale-by-1s":
-		world.Advance(62 * time.Second)
-	}
+	world.Advance(ages[cs.Age])
 	callsBefore := idp.NumCalls()
 	grantsBefore := idp.Grants
 	up.Take()
@@ -548,8 +606,8 @@ func c12SeqOne(c *Ctx, up *world.Upstream, cs c12SeqCase) {
 	switch {
 	case !stale:
 		mustServe = true // younger than the refresh period: no re-validation is required
-	case cs.Behaviour == "rotate":
-		// the refresh replaces the ID token with a fresh valid one
+	case c12Rotates(cs.Behaviour) && cs.Behaviour != "rotate-no-id-token":
+		// the refresh replaces the ID token with a fresh valid one (whatever else the answer leaves out)
 		mustServe = true
 	case cs.Behaviour == "rotate-no-id-token":
 		// the refresh succeeds but the stored ID token stays: re-validation decides
@@ -567,10 +625,14 @@ func c12SeqOne(c *Ctx, up *world.Upstream, cs c12SeqCase) {
 	if mustRefuse && served {
 		c.Violate("C12/seq-stale-session-honoured-without-validation", fmt.Sprintf("%+v: a session older than the refresh period whose refresh did not succeed and whose ID token does not verify was served", cs), 1, cs)
 	}
-	if mustServe && !served {
+	if mustServe && !served && stale && refreshed {
+		// own key: the provider HAS refreshed the session (and consumed the old refresh token) and the
+		// request is turned away all the same
+		c.Violate("C12/seq-refresh-granted-but-request-refused", fmt.Sprintf("%+v: the identity provider granted the refresh inside this request, yet it was not served (%s; session cookie deleted: %v)", cs, cs.Observed, c12rCleared(r, px.Opts.Cookie.Name)), 1, cs)
+	} else if mustServe && !served {
 		c.Violate("C12/seq-valid-session-refused", fmt.Sprintf("%+v: %s", cs, cs.Observed), 1, cs)
 	}
-	if stale && served && (cs.Behaviour == "rotate" || cs.Behaviour == "rotate-no-id-token") {
+	if stale && served && c12Rotates(cs.Behaviour) {
 		if !refreshed {
 			c.Violate("C12/seq-stale-session-honoured-without-refresh", fmt.Sprintf("%+v: served although the provider saw no successful refresh grant (%s)", cs, cs.Observed), 1, cs)
 		} else if tok := hits[0].Header.Get("X-Forwarded-Access-Token"); tok == oldAT {
@@ -586,7 +648,7 @@ func c12SeqOne(c *Ctx, up *world.Upstream, cs c12SeqCase) {
 				// a second refresh cycle: the session must hold the ROTATED refresh token, so the
 				// provider (single-use tokens, reuse revokes the family) grants again and the
 				// request carries yet newer tokens
-				world.Advance(2 * time.Minute)
+				world.Advance(ages["stale-by-1s"])
 				r3 := b.Get("/app")
 				h3 := up.Take()
 				c.Inc("seq_second_refresh_cycles")
@@ -629,18 +691,28 @@ func init() {
 	register(&checkDef{
 		id:    "C12",
 		level: "model_checking",
-		rule:  "all interleavings (visited-state pruning; quick: 2 threads unbounded + 3 threads preemption bound 2; thorough: 3 threads unbounded, 2 threads re-run without pruning) of 2-3 real requests sharing one stale session at every store, lock, identity-provider and retry-sleep step of the real proxy with the Redis store, for provider behaviours {rotating single-use refresh tokens, refresh fails, no refresh token}, plus the late-third-request variant; sequential histories for both stores x provider behaviour x stored ID token {valid, expired, other key} x age; distinct_nontrivial = distinct complete thread orders / sequential cases",
+		rule:  "all interleavings (visited-state pruning; quick: 2 threads unbounded + 3 threads preemption bound 2; thorough: 3 threads unbounded, 2 threads re-run without pruning) of 2-3 real requests sharing one stale session at every store, lock, identity-provider and retry-sleep step of the real proxy with the Redis store, for provider behaviours {rotating single-use refresh tokens, refresh fails, no refresh token}, plus the late-third-request variant; sequential histories for both stores x provider behaviour x stored ID token {valid, expired, other key} x age; part 'remote' (provider types that re-validate by CALLING the provider: keycloak = no refresh grant, google = refresh grant + validation call): every history of length 4 (thorough 5) over {login, advance 40 s, advance 90 s, request under validation answers {200, 401, 500, connection reset} x refresh grant {granted, refused}} that contains an advance and ends in a request, both stores, judged request by request against a reference model (stale => served only after a positive provider answer inside the request that precedes the upstream delivery, else unauthenticated + cookie deleted + store entry gone; new access token after a refresh), and all interleavings of 2 (thorough 3) requests sharing one stale session for both provider types x both stores x validation answers {200, 401, [500,] reset, 200-then-401, 401-then-200} x refresh {granted, refused}; distinct_nontrivial = distinct complete thread orders / sequential cases / histories with a request on a session past the refresh period",
 		assumptions: []string{
 			"miniredis models Redis command atomicity (SET NX PX, Lua EVAL for redislock)",
 			"the refresh lock's TTL is not reached (property proviso): executions whose virtual duration reaches 2 s are counted as proviso_not_met and not judged",
 			"interleavings are sequentially consistent at the granularity of store / lock / provider / sleep operations; in-process data races are outside this check",
 			"ID-token expiry is decided by go-oidc on the real clock: expired tokens are expired on both clocks",
+			"part 'remote': the provider answers a validation call 200 only for an access token it has issued; refresh tokens are not rotated (neither provider type stores a rotated one); the upstream delivery is not a scheduling point, its order relative to provider answers is recorded by the upstream itself",
 		},
 		shards: func(tier string) int { return 16 },
 		run: func(c *Ctx) {
 			up := world.NewUpstream("seq")
+			if os.Getenv("VERIF_C12_REMOTE_ONLY") != "" {
+				vatomic.Hooks = false
+				c12rSched(c)
+				c12rCloseEnvs()
+				return
+			}
 			c12Seq(c, up)
 			up.Close()
+			c12rSeq(c)     // providers that re-validate by calling the provider: histories
+			c12rConfigs(c) // ... and cookie configurations
+			defer c12rCloseEnvs()
 			vatomic.Hooks = false // the e-mail validator's atomic load is not this check's subject (C20)
 			e := c12NewEnv()
 			defer e.up.Close()
@@ -668,6 +740,13 @@ func init() {
 					jobs = append(jobs, job{c12Scenario{Threads: 2, Behaviour: beh}, 1000, false}) // cross-check of the pruning abstraction
 				}
 			}
+			// every form a granted refresh may legally have: both requests are served with the new tokens
+			for _, shape := range c12RefreshShapes {
+				jobs = append(jobs, job{c12Scenario{Threads: 2, Behaviour: "rotate-" + shape}, 1000, true})
+				if !c.Quick() {
+					jobs = append(jobs, job{c12Scenario{Threads: 3, Behaviour: "rotate-" + shape}, 1000, true})
+				}
+			}
 			c.Info["scenarios"] = len(jobs) + 1
 			for _, j := range jobs {
 				if c.Expired() {
@@ -680,6 +759,7 @@ func init() {
 			defer en.up.Close()
 			defer en.redis.Close()
 			c12Explore(c, en, c12Scenario{Threads: 2, Behaviour: "refresh-nonce-mismatch"}, 1000, true)
+			c12rSched(c) // ... and concurrent requests
 		},
 		post: func(c *Ctx) {
 			if c.Counters["nonvacuity_lock_contended"] == 0 {
@@ -688,6 +768,10 @@ func init() {
 			if c.Counters["seq_refused"] == 0 || c.Counters["seq_served"] == 0 {
 				c.Error("vacuous sequential part: served=%d refused=%d", c.Counters["seq_served"], c.Counters["seq_refused"])
 			}
+			if c.Counters["seq_cookie_configuration_cases"] == 0 || c.Counters["seq_cookie_configurations_refused_by_validation"] == 0 {
+				c.Error("vacuous cookie-configuration product: cases=%d refused by validation=%d", c.Counters["seq_cookie_configuration_cases"], c.Counters["seq_cookie_configurations_refused_by_validation"])
+			}
+			c12rPost(c)
 		},
 		replay: func(c *Ctx, raw json.RawMessage) string {
 			var rp c12Replay
@@ -697,6 +781,7 @@ func init() {
 			e := c12NewEnv()
 			defer e.up.Close()
 			defer e.redis.Close()
+			defer c12rCloseEnvs()
 			r := c12Exec(e, rp.Scenario, explore.Replay(rp.Choices, nil), false, c.Seed)
 			for _, v := range r.violations {
 				kv := strings.SplitN(v, "\x00", 2)
